@@ -574,3 +574,418 @@ Proof.
   destruct (value_checked_add a b) as [c| | |]; try contradiction; [eauto|].
   destruct C as [O | [p [n O]]]; [lia | specialize (Hq p n); lia].
 Qed.
+
+(* ------------------------------------------------------------------------------------------- *)
+(* MultiAsset::sub, checked_sub, clamped_sub *)
+
+Lemma ma_sub_entry_spec lhs p n amt : ma_wfb lhs = true ->
+  ma_wfb (ma_sub_entry lhs (p, n, amt)) = true /\
+  forall p' n', ma_qty (ma_sub_entry lhs (p, n, amt)) p' n' =
+                if bytes_eqb p p' && bytes_eqb n n' then ma_qty lhs p' n' - amt else ma_qty lhs p' n'.
+Proof.
+  intros W. unfold ma_sub_entry.
+  destruct (ma_get p lhs) as [a|] eqn:G.
+  - assert (Wa : assets_wfb a = true) by (eapply ma_wfb_get; eassumption).
+    destruct (assets_get n a) as [cur|] eqn:G2.
+    + assert (Hcur : aq a n = cur) by (unfold aq; rewrite G2; reflexivity).
+      assert (Bcur : cur < two64) by (rewrite <- Hcur; apply aq_bound; exact Wa).
+      destruct (amt <? cur) eqn:T.
+      * split; [apply ma_wfb_insert; [exact W | apply assets_wfb_insert; [exact Wa | lia]] |].
+        intros p' n'. rewrite ma_qty_insert, aq_insert, (bytes_eqb_sym p p'), (bytes_eqb_sym n n').
+        destruct (bytes_eqb p' p) eqn:E; cbn [andb]; [|reflexivity].
+        apply bytes_eqb_eq in E. subst p'. rewrite (ma_qty_unfold lhs p n'), G.
+        destruct (bytes_eqb n' n) eqn:E2; [|reflexivity]. apply bytes_eqb_eq in E2. subst n'. lia.
+      * pose proof (aq_remove a n) as R. specialize (fun n' => R n' (assets_wfb_sorted a Wa)).
+        destruct (am_remove name_cmp n a) as [|e a'] eqn:Ra.
+        -- split; [apply ma_wfb_remove; exact W|].
+           intros p' n'. rewrite ma_qty_remove by (apply ma_wfb_sorted; exact W).
+           rewrite (bytes_eqb_sym p p'), (bytes_eqb_sym n n').
+           destruct (bytes_eqb p' p) eqn:E; cbn [andb]; [|reflexivity].
+           apply bytes_eqb_eq in E. subst p'. rewrite (ma_qty_unfold lhs p n'), G.
+           specialize (R n'). unfold aq at 1 in R. cbn in R.
+           destruct (bytes_eqb n' n) eqn:E2; [|lia]. apply bytes_eqb_eq in E2. subst n'. lia.
+        -- rewrite <- Ra in R |- *. split; [apply ma_wfb_insert; [exact W | apply assets_wfb_remove; exact Wa] |].
+           intros p' n'. rewrite ma_qty_insert, R, (bytes_eqb_sym p p'), (bytes_eqb_sym n n').
+           destruct (bytes_eqb p' p) eqn:E; cbn [andb]; [|reflexivity].
+           apply bytes_eqb_eq in E. subst p'. rewrite (ma_qty_unfold lhs p n'), G.
+           destruct (bytes_eqb n' n) eqn:E2; [|reflexivity]. apply bytes_eqb_eq in E2. subst n'. lia.
+    + split; [exact W|]. intros p' n'.
+      destruct (bytes_eqb p p' && bytes_eqb n n') eqn:E; [|reflexivity].
+      apply andb_true_iff in E. destruct E as [E1 E2]. apply bytes_eqb_eq in E1, E2. subst p' n'.
+      rewrite ma_qty_unfold, G. unfold aq. rewrite G2. reflexivity.
+  - split; [exact W|]. intros p' n'.
+    destruct (bytes_eqb p p' && bytes_eqb n n') eqn:E; [|reflexivity].
+    apply andb_true_iff in E. destruct E as [E1 E2]. apply bytes_eqb_eq in E1, E2. subst p' n'.
+    rewrite ma_qty_unfold, G. reflexivity.
+Qed.
+
+Lemma ma_sub_fold es : forall lhs, ma_wfb lhs = true ->
+  ma_wfb (fold_left ma_sub_entry es lhs) = true /\
+  forall p n, ma_qty (fold_left ma_sub_entry es lhs) p n = ma_qty lhs p n - esum es p n.
+Proof.
+  induction es as [|[[p n] amt] es IH]; intros lhs W; cbn [fold_left].
+  - split; [exact W | intros; cbn [esum]; lia].
+  - destruct (ma_sub_entry_spec lhs p n amt W) as [W1 Q1]. destruct (IH _ W1) as [W2 Q2].
+    split; [exact W2|]. intros p' n'. rewrite Q2, Q1. cbn [esum].
+    destruct (bytes_eqb p p' && bytes_eqb n n'); lia.
+Qed.
+
+Theorem ma_sub_spec l r : ma_wfb l = true -> ma_wfb r = true ->
+  ma_wfb (ma_sub l r) = true /\ forall p n, ma_qty (ma_sub l r) p n = ma_qty l p n - ma_qty r p n.
+Proof.
+  intros Wl Wr. unfold ma_sub. destruct (ma_sub_fold (ma_entries r) l Wl) as [W Q].
+  split; [exact W|]. intros p n. rewrite Q, esum_entries by exact Wr. reflexivity.
+Qed.
+
+Lemma forallb_false {A} (f : A -> bool) l : forallb f l = false -> exists x, In x l /\ f x = false.
+Proof.
+  induction l as [|x l IH]; cbn [forallb]; [discriminate|].
+  destruct (f x) eqn:E; cbn [andb]; intros H.
+  - destruct (IH H) as [y [I F]]. exists y. split; [right; exact I | exact F].
+  - exists x. split; [left; reflexivity | exact E].
+Qed.
+
+Lemma ma_covers_iff l r : ma_wfb r = true ->
+  (ma_covers l r = true <-> forall p n, ma_qty r p n <= ma_qty l p n).
+Proof.
+  intros Wr. unfold ma_covers. rewrite forallb_forall. split.
+  - intros H p n. destruct (N.eq_dec (ma_qty r p n) 0) as [Z | NZ]; [lia|].
+    specialize (H _ (qty_in_entries r p n NZ)). cbn in H. unfold ma_qty in *. lia.
+  - intros H [[p n] q] I. rewrite <- (entries_in_qty r p n q Wr I). specialize (H p n). unfold ma_qty in *. lia.
+Qed.
+
+Lemma ma_covers_false l r : ma_wfb r = true -> ma_covers l r = false -> exists p n, ma_qty l p n < ma_qty r p n.
+Proof.
+  intros Wr H. unfold ma_covers in H. apply forallb_false in H. destruct H as [[[p n] q] [I F]].
+  exists p, n. rewrite (entries_in_qty r p n q Wr I). unfold ma_qty. lia.
+Qed.
+
+Lemma opt_ma_qty_unfold v p n : qty v p n = ma_qty (opt_ma (multiasset_of v)) p n.
+Proof. rewrite qty_unfold. destruct (multiasset_of v); reflexivity. Qed.
+
+Lemma opt_ma_wf v : value_wf v -> ma_wfb (opt_ma (multiasset_of v)) = true.
+Proof. intros W. apply value_wf_iff in W. destruct W as [_ M]. destruct (multiasset_of v); [exact M | reflexivity]. Qed.
+
+(* the multiasset part shared by checked_sub and clamped_sub: component-wise truncated subtraction *)
+Lemma value_sub_assets_spec a b : value_wf a -> value_wf b ->
+  match value_sub_assets a b with Some m => ma_wfb m = true | None => True end /\
+  forall p n, opt_ma_qty (value_sub_assets a b) p n = qty a p n - qty b p n.
+Proof.
+  intros Wa Wb. apply value_wf_iff in Wa, Wb. destruct Wa as [_ Ma], Wb as [_ Mb].
+  unfold value_sub_assets. setoid_rewrite qty_unfold.
+  destruct (multiasset_of a) as [l|], (multiasset_of b) as [r|]; cbn [opt_ma_qty].
+  - destruct (ma_sub_spec l r Ma Mb) as [W Q]. destruct (ma_sub l r) as [|e d] eqn:D.
+    + split; [exact I|]. intros p n. rewrite <- Q. reflexivity.
+    + split; [exact W|]. intros p n. cbn [opt_ma_qty]. apply Q.
+  - split; [exact Ma|]. intros. lia.
+  - split; [exact I|]. intros. lia.
+  - split; [exact I|]. intros. lia.
+Qed.
+
+Theorem value_clamped_sub_spec a b : value_wf a -> value_wf b ->
+  value_wf (value_clamped_sub a b) /\ coin (value_clamped_sub a b) = coin a - coin b /\
+  forall p n, qty (value_clamped_sub a b) p n = qty a p n - qty b p n.
+Proof.
+  intros Wa Wb. destruct (value_sub_assets_spec a b Wa Wb) as [W Q].
+  apply value_wf_iff in Wa. destruct Wa as [Ca _].
+  split; [apply value_wf_iff; cbn; unfold u64_clamped_sub; split; [lia | exact W] |].
+  split; [reflexivity | exact Q].
+Qed.
+
+(* the three outcomes of Value::checked_sub (the code since /repo 34fa344) *)
+Theorem value_checked_sub_cases a b : value_wf a -> value_wf b ->
+  match value_checked_sub a b with
+  | Ok c => value_wf c /\ coin b <= coin a /\ coin c = coin a - coin b /\
+            forall p n, qty b p n <= qty a p n /\ qty c p n = qty a p n - qty b p n
+  | Err => coin a < coin b \/ exists p n, qty a p n < qty b p n
+  | _ => False
+  end.
+Proof.
+  intros Wa Wb. destruct (value_sub_assets_spec a b Wa Wb) as [W Q].
+  pose proof (opt_ma_wf b Wb) as Wob.
+  apply value_wf_iff in Wa. destruct Wa as [Ca Ma].
+  unfold value_checked_sub, u64_sub. destruct (coin b <=? coin a) eqn:T; cbn [bind]; [|left; lia].
+  set (covered := match multiasset_of b with
+                  | Some r => ma_covers match multiasset_of a with Some l => l | None => ma_new end r
+                  | None => true end).
+  assert (Hc : covered = ma_covers (opt_ma (multiasset_of a)) (opt_ma (multiasset_of b))).
+  { unfold covered. destruct (multiasset_of b), (multiasset_of a); reflexivity. }
+  rewrite Hc. destruct (ma_covers (opt_ma (multiasset_of a)) (opt_ma (multiasset_of b))) eqn:Cv.
+  - rewrite (ma_covers_iff _ _ Wob) in Cv.
+    split; [apply value_wf_iff; cbn; split; [lia | exact W] |]. split; [lia|]. split; [reflexivity|].
+    intros p n. split; [rewrite !opt_ma_qty_unfold; apply Cv | apply Q].
+  - right. destruct (ma_covers_false _ _ Wob Cv) as [p [n L]]. exists p, n. rewrite !opt_ma_qty_unfold. exact L.
+Qed.
+
+Corollary value_checked_sub_ok a b c : value_wf a -> value_wf b -> value_checked_sub a b = Ok c ->
+  coin b <= coin a /\ coin c = coin a - coin b /\
+  (forall p n, qty b p n <= qty a p n /\ qty c p n = qty a p n - qty b p n) /\ value_wf c.
+Proof.
+  intros Wa Wb H. pose proof (value_checked_sub_cases a b Wa Wb) as C. rewrite H in C. tauto.
+Qed.
+
+Corollary value_checked_sub_err a b : value_wf a -> value_wf b -> value_checked_sub a b = Err ->
+  coin a < coin b \/ exists p n, qty a p n < qty b p n.
+Proof.
+  intros Wa Wb H. pose proof (value_checked_sub_cases a b Wa Wb) as C. rewrite H in C. exact C.
+Qed.
+
+Corollary value_checked_sub_total a b : value_wf a -> value_wf b ->
+  coin b <= coin a -> (forall p n, qty b p n <= qty a p n) -> exists c, value_checked_sub a b = Ok c.
+Proof.
+  intros Wa Wb Hc Hq. pose proof (value_checked_sub_cases a b Wa Wb) as C.
+  destruct (value_checked_sub a b) as [c| | |]; try contradiction; [eauto|].
+  destruct C as [O | [p [n O]]]; [lia | specialize (Hq p n); lia].
+Qed.
+
+(* the code before /repo 34fa344 (assets clamped): it agrees with the repaired code whenever that one succeeds … *)
+Lemma value_checked_sub_legacy_agrees a b c : value_checked_sub a b = Ok c -> value_checked_sub_legacy a b = Ok c.
+Proof.
+  unfold value_checked_sub, value_checked_sub_legacy. destruct (u64_sub (coin a) (coin b)); cbn [bind]; try discriminate.
+  destruct (match multiasset_of b with Some r => _ | None => true end); [auto | discriminate].
+Qed.
+
+(* ------------------------------------------------------------------------------------------- *)
+(* Comparison *)
+
+Lemma ma_leb_sem_covers l r : ma_leb_sem l r = ma_covers r l.
+Proof. reflexivity. Qed.
+
+Lemma ma_leb_sem_iff l r : ma_wfb l = true -> (ma_leb_sem l r = true <-> forall p n, ma_qty l p n <= ma_qty r p n).
+Proof. intros W. rewrite ma_leb_sem_covers. apply ma_covers_iff. exact W. Qed.
+
+Lemma ma_is_all_zeros_leb l r : ma_is_all_zeros l r = ma_leb_sem l r.
+Proof.
+  unfold ma_is_all_zeros, ma_leb_sem. induction (ma_entries l) as [|[[p n] q] es IH]; [reflexivity|].
+  cbn [forallb]. rewrite IH. f_equal. unfold u64_clamped_sub, ma_qty.
+  destruct (q <=? ma_get_asset p n r) eqn:E; lia.
+Qed.
+
+Theorem value_leb_sem_iff a b : value_wf a -> (value_leb_sem a b = true <-> value_le_sem a b).
+Proof.
+  intros Wa. unfold value_leb_sem, value_le_sem. rewrite andb_true_iff, (ma_leb_sem_iff _ _ (opt_ma_wf a Wa)).
+  setoid_rewrite opt_ma_qty_unfold. split; intros [A B]; split; auto; lia.
+Qed.
+
+Theorem value_eqb_sem_iff a b : value_wf a -> value_wf b -> (value_eqb_sem a b = true <-> value_eq_sem a b).
+Proof.
+  intros Wa Wb. unfold value_eqb_sem, value_eq_sem. rewrite !andb_true_iff.
+  rewrite (ma_leb_sem_iff _ _ (opt_ma_wf a Wa)), (ma_leb_sem_iff _ _ (opt_ma_wf b Wb)).
+  setoid_rewrite opt_ma_qty_unfold. split.
+  - intros [[A B] C]. split; [lia|]. intros p n. specialize (B p n). specialize (C p n). lia.
+  - intros [A B]. split; [split; [lia|] |]; intros p n; rewrite (B p n); lia.
+Qed.
+
+Lemma value_eq_sem_le a b : value_eq_sem a b <-> value_le_sem a b /\ value_le_sem b a.
+Proof.
+  unfold value_eq_sem, value_le_sem. split.
+  - intros [A B]. split; (split; [lia|]); intros p n; rewrite (B p n); lia.
+  - intros [[A B] [C D]]. split; [lia|]. intros p n. specialize (B p n). specialize (D p n). lia.
+Qed.
+
+Lemma value_compare_assets_opt l r : value_compare_assets l r = ma_partial_cmp (opt_ma l) (opt_ma r).
+Proof. destruct l, r; reflexivity. Qed.
+
+(* impl PartialOrd for Value, as a function of the two component-wise tests *)
+Theorem value_partial_cmp_leb a b :
+  value_partial_cmp a b =
+    match value_leb_sem a b, value_leb_sem b a with
+    | true, true => Some Eq
+    | true, false => Some Lt
+    | false, true => Some Gt
+    | false, false => None
+    end.
+Proof.
+  unfold value_partial_cmp, value_leb_sem. rewrite value_compare_assets_opt. unfold ma_partial_cmp.
+  rewrite !ma_is_all_zeros_leb.
+  destruct (ma_leb_sem (opt_ma (multiasset_of a)) (opt_ma (multiasset_of b))),
+           (ma_leb_sem (opt_ma (multiasset_of b)) (opt_ma (multiasset_of a)));
+    destruct (N.compare (coin a) (coin b)) eqn:C;
+    try (apply N.compare_eq in C); try (rewrite N.compare_lt_iff in C); try (rewrite N.compare_gt_iff in C);
+    rewrite ?andb_true_r, ?andb_false_r;
+    repeat match goal with |- context [?x <=? ?y] => destruct (x <=? y) eqn:? end; try reflexivity; lia.
+Qed.
+
+(* value comparison = component-wise comparison of lovelace and every asset *)
+Theorem value_partial_cmp_spec a b : value_wf a -> value_wf b ->
+  (value_partial_cmp a b = Some Eq <-> value_eq_sem a b) /\
+  (value_partial_cmp a b = Some Lt <-> value_le_sem a b /\ ~ value_le_sem b a) /\
+  (value_partial_cmp a b = Some Gt <-> value_le_sem b a /\ ~ value_le_sem a b) /\
+  (value_partial_cmp a b = None <-> ~ value_le_sem a b /\ ~ value_le_sem b a).
+Proof.
+  intros Wa Wb. rewrite value_partial_cmp_leb, value_eq_sem_le.
+  rewrite <- (value_leb_sem_iff a b Wa), <- (value_leb_sem_iff b a Wb).
+  destruct (value_leb_sem a b), (value_leb_sem b a); repeat split; try congruence; try tauto;
+    try (intros [? ?]; congruence); try (intros; discriminate).
+Qed.
+
+Corollary value_le_spec a b : value_wf a -> (value_le a b = true <-> value_le_sem a b).
+Proof.
+  intros Wa. unfold value_le. rewrite value_partial_cmp_leb, <- (value_leb_sem_iff a b Wa).
+  destruct (value_leb_sem a b), (value_leb_sem b a); split; congruence.
+Qed.
+Corollary value_ge_spec a b : value_wf b -> (value_ge a b = true <-> value_le_sem b a).
+Proof.
+  intros Wb. unfold value_ge. rewrite value_partial_cmp_leb, <- (value_leb_sem_iff b a Wb).
+  destruct (value_leb_sem a b), (value_leb_sem b a); split; congruence.
+Qed.
+
+(* ------------------------------------------------------------------------------------------- *)
+(* PartialEq (structural after dropping an all-empty multiasset) implies semantic equality *)
+
+Lemma assets_eqb_eq a : forall b, assets_eqb a b = true -> a = b.
+Proof.
+  induction a as [|[n1 q1] a IH]; intros [|[n2 q2] b]; cbn [assets_eqb]; try discriminate; [reflexivity|].
+  rewrite !andb_true_iff. intros [[E1 E2] E3]. apply bytes_eqb_eq in E1. apply N.eqb_eq in E2. subst. f_equal. auto.
+Qed.
+Lemma ma_eqb_eq a : forall b, ma_eqb a b = true -> a = b.
+Proof.
+  induction a as [|[p1 a1] a IH]; intros [|[p2 a2] b]; cbn [ma_eqb]; try discriminate; [reflexivity|].
+  rewrite !andb_true_iff. intros [[E1 E2] E3]. apply bytes_eqb_eq in E1. apply assets_eqb_eq in E2. subst. f_equal. auto.
+Qed.
+
+Lemma reduce_none_qty m p n : ma_reduce_empty_to_none m = None -> ma_qty m p n = 0.
+Proof.
+  unfold ma_reduce_empty_to_none. destruct (existsb _ m) eqn:E; [discriminate|]. intros _.
+  rewrite ma_qty_unfold. destruct (ma_get p m) as [a|] eqn:G; [|reflexivity].
+  apply (am_get_in bytes_cmp bytes_key_order) in G.
+  destruct a as [|e a]; [reflexivity|]. exfalso.
+  assert (X : existsb (fun pa : bytes * assets => match snd pa with [] => false | _ :: _ => true end) m = true)
+    by (apply existsb_exists; exists (p, e :: a); split; [exact G | reflexivity]).
+  congruence.
+Qed.
+Lemma reduce_some m x : ma_reduce_empty_to_none m = Some x -> x = m.
+Proof. unfold ma_reduce_empty_to_none. destruct (existsb _ m); congruence. Qed.
+
+Lemma value_reduced_qty v p n :
+  qty v p n = match value_reduced v with Some x => ma_qty x p n | None => 0 end.
+Proof.
+  rewrite qty_unfold. unfold value_reduced. destruct (multiasset_of v) as [m|]; [|reflexivity].
+  destruct (ma_reduce_empty_to_none m) as [x|] eqn:R.
+  - apply reduce_some in R. subst. reflexivity.
+  - apply reduce_none_qty. exact R.
+Qed.
+
+Theorem value_eqb_sound a b : value_eqb a b = true -> value_eq_sem a b.
+Proof.
+  unfold value_eqb, value_eq_sem. rewrite andb_true_iff. intros [C M]. split; [lia|].
+  intros p n. rewrite !value_reduced_qty.
+  destruct (value_reduced a) as [x|], (value_reduced b) as [y|]; try discriminate; [|reflexivity].
+  apply ma_eqb_eq in M. subst. reflexivity.
+Qed.
+
+(* ------------------------------------------------------------------------------------------- *)
+(* The laws of C14 under semantic equality *)
+
+Lemma value_eq_sem_refl a : value_eq_sem a a.
+Proof. split; reflexivity. Qed.
+Lemma value_eq_sem_sym a b : value_eq_sem a b -> value_eq_sem b a.
+Proof. intros [A B]. split; [lia | intros; rewrite B; reflexivity]. Qed.
+Lemma value_eq_sem_trans a b c : value_eq_sem a b -> value_eq_sem b c -> value_eq_sem a c.
+Proof. intros [A B] [C D]. split; [lia | intros; rewrite B, D; reflexivity]. Qed.
+
+(* both results Ok and semantically equal, or both an explicit error *)
+Definition same_outcome (x y : result value) : Prop :=
+  match x, y with
+  | Ok c, Ok c' => value_eq_sem c c'
+  | Err, Err => True
+  | _, _ => False
+  end.
+
+Definition no_overflow (a b : value) : Prop :=
+  coin a + coin b < two64 /\ forall p n, qty a p n + qty b p n < two64.
+
+Lemma value_wf_coin v : value_wf v -> coin v < two64.
+Proof. intros W. apply value_wf_iff in W. tauto. Qed.
+
+(* Value::checked_add succeeds exactly when no component overflows, and is an explicit error otherwise *)
+Lemma value_checked_add_dichotomy a b : value_wf a -> value_wf b ->
+  (exists c, value_checked_add a b = Ok c /\ no_overflow a b) \/ (value_checked_add a b = Err /\ ~ no_overflow a b).
+Proof.
+  intros Wa Wb. pose proof (value_checked_add_cases a b Wa Wb) as C.
+  destruct (value_checked_add a b) as [c| | |]; try contradiction.
+  - left. exists c. split; [reflexivity|]. destruct C as [Wc [E Q]]. split.
+    + rewrite <- E. apply value_wf_coin. exact Wc.
+    + intros p n. rewrite <- Q. apply qty_bound. exact Wc.
+  - right. split; [reflexivity|]. intros [N1 N2]. destruct C as [O | [p [n O]]]; [lia | specialize (N2 p n); lia].
+Qed.
+
+Theorem value_add_comm a b : value_wf a -> value_wf b ->
+  same_outcome (value_checked_add a b) (value_checked_add b a).
+Proof.
+  intros Wa Wb.
+  destruct (value_checked_add_dichotomy a b Wa Wb) as [[c [E1 N1]] | [E1 N1]];
+  destruct (value_checked_add_dichotomy b a Wb Wa) as [[c' [E2 N2]] | [E2 N2]]; rewrite E1, E2; cbn [same_outcome].
+  - destruct (value_checked_add_ok a b c Wa Wb E1) as [C1 [Q1 _]].
+    destruct (value_checked_add_ok b a c' Wb Wa E2) as [C2 [Q2 _]].
+    split; [lia|]. intros p n. rewrite Q1, Q2. lia.
+  - apply N2. destruct N1 as [X Y]. split; [lia|]. intros p n. specialize (Y p n). lia.
+  - apply N1. destruct N2 as [X Y]. split; [lia|]. intros p n. specialize (Y p n). lia.
+  - exact I.
+Qed.
+
+Definition no_overflow3 (a b c : value) : Prop :=
+  coin a + coin b + coin c < two64 /\ forall p n, qty a p n + qty b p n + qty c p n < two64.
+
+Lemma add3_l_cases a b c : value_wf a -> value_wf b -> value_wf c ->
+  (exists x, (let* ab := value_checked_add a b in value_checked_add ab c) = Ok x /\ no_overflow3 a b c /\
+             coin x = coin a + coin b + coin c /\ (forall p n, qty x p n = qty a p n + qty b p n + qty c p n) /\ value_wf x)
+  \/ ((let* ab := value_checked_add a b in value_checked_add ab c) = Err /\ ~ no_overflow3 a b c).
+Proof.
+  intros Wa Wb Wc.
+  destruct (value_checked_add_dichotomy a b Wa Wb) as [[ab [E1 N1]] | [E1 N1]]; rewrite E1; cbn [bind].
+  - destruct (value_checked_add_ok a b ab Wa Wb E1) as [C1 [Q1 Wab]].
+    destruct (value_checked_add_dichotomy ab c Wab Wc) as [[x [E2 N2]] | [E2 N2]]; rewrite E2.
+    + left. exists x. destruct (value_checked_add_ok ab c x Wab Wc E2) as [C2 [Q2 Wx]].
+      split; [reflexivity|]. destruct N2 as [X Y]. split; [|split; [lia | split; [|exact Wx]]].
+      * split; [lia|]. intros p n. specialize (Y p n). rewrite Q1 in Y. exact Y.
+      * intros p n. rewrite Q2, Q1. reflexivity.
+    + right. split; [reflexivity|]. intros [X Y]. apply N2. split; [lia|]. intros p n. rewrite Q1. apply Y.
+  - right. split; [reflexivity|]. intros [X Y]. apply N1. split; [lia|]. intros p n. specialize (Y p n). lia.
+Qed.
+
+Lemma add3_r_cases a b c : value_wf a -> value_wf b -> value_wf c ->
+  (exists x, (let* bc := value_checked_add b c in value_checked_add a bc) = Ok x /\ no_overflow3 a b c /\
+             coin x = coin a + coin b + coin c /\ (forall p n, qty x p n = qty a p n + qty b p n + qty c p n) /\ value_wf x)
+  \/ ((let* bc := value_checked_add b c in value_checked_add a bc) = Err /\ ~ no_overflow3 a b c).
+Proof.
+  intros Wa Wb Wc.
+  destruct (value_checked_add_dichotomy b c Wb Wc) as [[bc [E1 N1]] | [E1 N1]]; rewrite E1; cbn [bind].
+  - destruct (value_checked_add_ok b c bc Wb Wc E1) as [C1 [Q1 Wbc]].
+    destruct (value_checked_add_dichotomy a bc Wa Wbc) as [[x [E2 N2]] | [E2 N2]]; rewrite E2.
+    + left. exists x. destruct (value_checked_add_ok a bc x Wa Wbc E2) as [C2 [Q2 Wx]].
+      split; [reflexivity|]. destruct N2 as [X Y]. split; [|split; [lia | split; [|exact Wx]]].
+      * split; [lia|]. intros p n. specialize (Y p n). rewrite Q1 in Y. lia.
+      * intros p n. rewrite Q2, Q1. lia.
+    + right. split; [reflexivity|]. intros [X Y]. apply N2. split; [lia|]. intros p n. rewrite Q1. specialize (Y p n). lia.
+  - right. split; [reflexivity|]. intros [X Y]. apply N1. split; [lia|]. intros p n. specialize (Y p n). lia.
+Qed.
+
+Theorem value_add_assoc a b c : value_wf a -> value_wf b -> value_wf c ->
+  same_outcome (let* ab := value_checked_add a b in value_checked_add ab c)
+               (let* bc := value_checked_add b c in value_checked_add a bc).
+Proof.
+  intros Wa Wb Wc.
+  destruct (add3_l_cases a b c Wa Wb Wc) as [[x [E1 [N1 [C1 [Q1 _]]]]] | [E1 N1]];
+  destruct (add3_r_cases a b c Wa Wb Wc) as [[y [E2 [N2 [C2 [Q2 _]]]]] | [E2 N2]]; rewrite E1, E2; cbn [same_outcome]; try tauto.
+  split; [lia|]. intros p n. rewrite Q1, Q2. reflexivity.
+Qed.
+
+(* subtraction undoes addition *)
+Theorem value_sub_undoes_add a b c : value_wf a -> value_wf b -> value_checked_add a b = Ok c ->
+  exists d, value_checked_sub c b = Ok d /\ value_eq_sem d a.
+Proof.
+  intros Wa Wb E. destruct (value_checked_add_ok a b c Wa Wb E) as [C [Q Wc]].
+  destruct (value_checked_sub_total c b Wc Wb) as [d D]; [lia | intros p n; rewrite Q; lia |].
+  exists d. split; [exact D|]. destruct (value_checked_sub_ok c b d Wc Wb D) as [_ [Cd [Qd _]]].
+  split; [lia|]. intros p n. destruct (Qd p n) as [_ X]. rewrite X, Q. lia.
+Qed.
+
+(* clamped_sub undoes addition too *)
+Corollary value_clamped_sub_undoes_add a b c : value_wf a -> value_wf b -> value_checked_add a b = Ok c ->
+  value_eq_sem (value_clamped_sub c b) a.
+Proof.
+  intros Wa Wb E. destruct (value_checked_add_ok a b c Wa Wb E) as [C [Q Wc]].
+  destruct (value_clamped_sub_spec c b Wc Wb) as [_ [Cd Qd]].
+  split; [lia|]. intros p n. rewrite Qd, Q. lia.
+Qed.
